@@ -31,7 +31,7 @@ CLAIMS = {
              "Chen for H) in both arms; the multi-piece aggregation updates of W, H, A are Chen's relation; update "
              "order (H and A use the loop-carried W); antisymmetry of A; H->U with the query length; zero-length arm "
              "returns fresh zeros; wrappers use an admissible (time map, output map) pair. Tree search cuts every query exactly (integer and near-coincident orderings); zero-length results have the shapes of ordinary ones; split identities also in dyadic mode."
-             " Replay of the real tree (exact rational times, symbolic unit normals, nothing mocked): W additivity and Chen's relation for U over triples asked in any order after forward-backward, adaptive-looking and dyadic histories, for cache sizes 0..unbounded, dt hints, plain and dyadic trees; zero-length queries (R03.9). The zero-length shortcut is taken only when the resolved end points coincide, also for queries one tolerance cell long (R03.2 at tolerance scales)."
+             " Replay of the real tree (exact rational times, symbolic unit normals, nothing mocked): W additivity and Chen's relation for U over triples asked in any order after forward-backward, adaptive-looking and dyadic histories, for cache sizes 0..unbounded, dt hints, plain and dyadic trees; zero-length queries (R03.9). The zero-length shortcut is taken only when the resolved end points coincide, also for queries one tolerance cell long (R03.2 at tolerance scales). The same over the triples of seeded random histories (R03.13)."
              " Replay through the wrappers' own constructors: BrownianTree, BrownianPath, ReverseBrownian are additive, point / interval consistent, repeatable, and the reflection maps (W, U) as Chen's relation prescribes (R03.10); Davie / Foster areas returned after a history are antisymmetric and repeatable after refinement (R03.11)."
              ' With a tolerance, the increment returned for raw query times is that of the resolved end points, zero iff they coincide (R03.12, replay).',
         note="Partial: values after arbitrary histories rely on C05's structural rules; floating-point tolerance not "
@@ -41,7 +41,7 @@ CLAIMS = {
         text="Exact covariance matrix of (W_L,H_L,W_R,H_R) computed from the extracted coefficients equals "
              "diag(l, l/12, r, r/12) identically in l, r; top-level scalings; seed separation of the noises; Davie / "
              "Foster conditional mean and residual variance equal the prescribed formulas; noise at full shape. Split covariance also in dyadic mode with a rounded midpoint; aggregated Levy area has regression slope 1; quantisation grid no coarser than tol; 64-bit seeds. The generator that consumes a node seed uses all 64 bits of it (torch's CPU generator keeps 32; modelling fact)."
-             " Replay: the joint covariance of (W, U) over overlapping, nested and disjoint intervals after arbitrary histories equals, entry by entry in exact rationals, that of Brownian motion and its time integral computed from the definition (R04.10); the root's variance is the length of the node it covers, also with a tolerance (R04.2); a node's seeds are consumed by one split only (R05.2)."
+             " Replay: the joint covariance of (W, U) over overlapping, nested and disjoint intervals after arbitrary histories equals, entry by entry in exact rationals, that of Brownian motion and its time integral computed from the definition (R04.10); the root's variance is the length of the node it covers, also with a tolerance (R04.2); a node's seeds are consumed by one split only (R05.2). The same over all distinct intervals of seeded random histories (R04.12)."
              ' With a user-supplied end-to-end W (and H) the whole interval returns it verbatim and every other answer has the conditional mean and covariance of the bridge, by Gaussian conditioning of the reference covariances (R04.11).',
         note="Partial: the joint law over arbitrary interval sets follows from the split law by the Levy construction "
              "argument, which is on paper. " + TRUSTED),
@@ -53,7 +53,7 @@ CLAIMS = {
              "identity."
              ' Replay: every interval asked more than once in (history, probes, history backwards, probes) returns its first answer, for four histories x cache sizes x dt hints x tree modes (R05.8).'
              ' (W, U, A) with Davie / Foster areas is returned unchanged when asked again after the tree was refined underneath (R03.11).'
-             ' The contents of history slots (search hint, query statistics, anything stored per query) do not flow into returned values except through the start-independent tree search (R05.9, taint).',
+             ' The contents of history slots (search hint, query statistics, anything stored per query) do not flow into returned values except through the start-independent tree search (R05.9, taint). Seeded random query histories on the replayed tree: every repeated query returns its first answer (R05.10).',
         note="Assumes (read, not decided) that the interval decomposition does not depend on the search start. "
              + TRUSTED),
     "C06": dict(
@@ -110,14 +110,14 @@ CLAIMS = {
              "is y0; linear_interp is the linear interpolant (polynomial identity) applied to the last two grid "
              "states; list ts normalised to y0's dtype/device. Implicit flows of the output time through branches; exact-rational model of the last steps (a genuine remainder stays a clipped step); float-exact reduction of the interpolation formula at its end points."
              ' A list ts is followed through every dtype conversion of the validation phase (R12.5, semantic); every path through the output stage is the linear interpolant and leaves the loop state alone (R12.4); a pass of the stepping loop advances the clock or raises (R12.9).'
-             ' Replay of whole fixed-step solves with the real steps (solver_replay.py): outputs at grid times are the grid states, outputs inside a step their linear interpolants, whatever other output times are requested, clipped last step included (R12.10).',
+             ' Replay of whole fixed-step solves with the real steps (solver_replay.py): outputs at grid times are the grid states, outputs inside a step their linear interpolants, whatever other output times are requested, clipped last step included (R12.10). The statement itself on seeded random output-time lists against the real driver with an uninterpreted chained step whose values name their history (R12.11); R12.10 checks the clock alone first (step recorder).',
         note="Bit-level equality is not decided. " + TRUSTED),
     "C13": dict(
         technique="effect analysis: no hidden state outside constructors; extra-state plumbing",
         text="No attribute/global store in any step, integrate, init_extra_solver_state or SDE-wrapper method other "
              "than __init__; integrate returns the carried extra; sdeint uses extra_solver_state verbatim. The value reported at a step end is the solver's state bit for bit (float-exact reduction); fixed-step arguments depend only on the restartable state. The reported outputs are the loop states themselves (list + stack, or an output tensor without a fixed dtype)."
              ' The end-of-call guard absorbs only a remainder of rounding-error size, also far from the origin (R13.7, last-steps model).'
-             " Replay of whole solves with the real steps: [0, 3/8] in two and in three chunks restarted from the returned state and extra solver state gives the one-shot solve's canonical forms (R13.8)."
+             " Replay of whole solves with the real steps: [0, 3/8] in two and in three chunks restarted from the returned state and extra solver state gives the one-shot solve's canonical forms (R13.8). Seeded random chunkings at grid points against the real driver with an uninterpreted chained step (R13.9)."
              ' The supplied extra solver state reaches the solve unchanged for every (method, adjoint method) pair of sdeint_adjoint (R13.2).',
         note="Bit identity across chunks additionally needs C05 and float reasoning. " + TRUSTED),
     "C14": dict(
@@ -125,7 +125,7 @@ CLAIMS = {
         text="Accept is control-dependent on exactly 'err <= 1 or h <= dt_min' (truth table over 3x3 regions); error "
              "compares the full step with two chained half steps; accepted state is the two-half-step state; a "
              "rejected step strictly shrinks (factor in [0.2, 0.94)); clamp to dt_min; estimate bounded away from 0. The controller scales the length of the trial actually taken; trial intervals are never stretched beyond the controller's step (exact-rational models). The first trial is max(dt, dt_min) long; last-steps models also far from the origin of time."
-             ' A pass whose trial step cannot advance the clock raises (R14.8); nothing of the controller is kept on the solver between integrate calls (R13.1).',
+             ' A pass whose trial step cannot advance the clock raises (R14.8); nothing of the controller is kept on the solver between integrate calls (R13.1). The statement clause by clause on traces of the real adaptive driver under seeded scripted controller schedules, with an uninterpreted chained step (R14.9).',
         note="Partial: 'tightening tolerances reduces the true error' is not decided. " + TRUSTED),
     "C15": dict(
         technique="ast formula canonicalisation: reverse step composed with forward step is the identity",
